@@ -23,10 +23,12 @@ POOL = {
     7: 0, 8: "", 9: [], 10: [1, 2], 11: (), 12: {}, 13: 1, 14: "x", 15: (1, 2), 16: -1,
     17: "res", 18: 3.5, 19: ["k"],
 }
+POOL[40] = ValueError("returned, not raised")      # an exception instance is a value like any other
+POOL[41] = KeyError                                 # so is a class
 for _i in range(12):
     POOL[20 + _i] = f"s{_i}"
 STATE_VALUE_TOKS = [1, 2, 3, 4, 5, 6, 7, 8, 13, 15, 16]
-RET_TOKS = [0, 1, 7, 8, 9, 10, 11, 12, 13, 14, 17, 18, 19]
+RET_TOKS = [0, 1, 7, 8, 9, 10, 11, 12, 13, 14, 17, 18, 19, 40, 41]
 TRUTHY_TOKS = [1, 13, 14, 10, 15]
 FALSY_TOKS = [0, 7, 8, 9, 11, 12]
 
@@ -86,13 +88,51 @@ class UserBaseExc(_Tagged, BaseException):
     """not an `Exception`: stands for KeyboardInterrupt / SystemExit / asyncio.CancelledError raised in a callback"""
 
 
+class UserTypeError(_Tagged, TypeError):
+    pass
+
+
+class UserAssertionError(_Tagged, AssertionError):
+    pass
+
+
+class UserOSError(_Tagged, OSError):
+    pass
+
+
+class UserTimeout(_Tagged, TimeoutError):
+    pass
+
+
+def _lib_exc(kind):
+    """a callback may raise the *library's own* exceptions too (a parent machine delegating to a child machine
+    that refuses the event, a callback constructing another machine, ...): they must reach the caller like any
+    other exception"""
+    import statemachine.exceptions as X
+    base = {"tna": X.TransitionNotAllowed, "invdef": X.InvalidDefinition, "invstate": X.InvalidStateValue}[kind]
+    cache = _lib_exc.__dict__.setdefault("cache", {})
+    if base not in cache:
+        def __init__(self, tag):
+            Exception.__init__(self, tag)
+            self.tag = tag
+            self.event = None
+            self.state = None
+        cache[base] = type("User" + base.__name__, (base,), {"__init__": __init__})
+    return cache[base]
+
+
 EXC_KINDS = [UserExc, UserKeyError, UserValueError, UserRuntimeError, UserExc, UserNotImplemented, UserAttributeError,
-             UserLookupError, UserBaseExc, UserExc]
+             UserLookupError, UserBaseExc, UserExc, "tna", UserTypeError, "invdef", UserAssertionError, "invstate",
+             UserOSError, UserTimeout, "tna"]
+MAX_EXC_TAG = 17
 
 
 def user_exc(tag):
-    """the exception class is a function of the tag (1..9), so a scenario replays exactly"""
-    return EXC_KINDS[tag % len(EXC_KINDS)](tag)
+    """the exception class is a function of the tag (1..17), so a scenario replays exactly"""
+    k = EXC_KINDS[tag % len(EXC_KINDS)]
+    if isinstance(k, str):
+        return _lib_exc(k)(tag)
+    return k(tag)
 
 
 class EqTag:
@@ -640,7 +680,7 @@ class Runtime:
 
     def exc_s(self, e):
         from statemachine.exceptions import InvalidDefinition, InvalidStateValue, TransitionNotAllowed
-        if isinstance(e, (UserExc, _Tagged)):
+        if isinstance(e, (UserExc, _Tagged)) or type(e).__name__.startswith("User") and hasattr(e, "tag"):
             return f"user:{e.tag}"
         if isinstance(e, TransitionNotAllowed):
             return f"notallowed:{self.ev_id(e.event)}:{self.state_idx(e.state)}"
